@@ -78,8 +78,15 @@ func (w *World) ruleLiteralTypeNumberedPX(r *Report, rule string) {
 		bad   int
 	}
 	sites := map[*ssa.Return]*site{}
+	// production readers (readString, readInt …) stand for the value they read;
+	// everything else (extracted helpers) is stepped into
+	stop := w.readerBoundaries()
 	var px *PX
 	px = w.newPX(pxHooks{
+		inline: func(fr *pxFrame, callee *ssa.Function) bool {
+			_, isReader := stop[callee]
+			return !isReader
+		},
 		onReturn: func(fr *pxFrame, ret *ssa.Return, results []*Term, s *pxState) {
 			if idx < 0 || pxErrOutcome(ret.Results[idx], results[idx], s) == "err" {
 				return
